@@ -2,7 +2,7 @@
 //!
 //! Recognised grammar (conventions on `let`, binders and borrows: mini.rs)
 //!
-//! `fn prepare_request` (every inherent impl in token/mod.rs, devicecode.rs, introspection.rs, revocation.rs)
+//! `fn prepare_request` (every inherent impl, in whichever file)
 //!     stmt*  tail
 //!   stmt :=  let x [: T] = E;                                         name for E
 //!         |  let [mut] P [: T] = vec![ ("lit", V), .. ];              the parameter vector (at most one)
@@ -30,7 +30,6 @@
 use crate::mini::*;
 use crate::{fail, lean, Sources, R};
 
-const FILES: &[&str] = &["token/mod.rs", "devicecode.rs", "introspection.rs", "revocation.rs"];
 const EP: &str = "endpoint.rs";
 
 pub enum Val {
@@ -799,17 +798,11 @@ pub fn extract(srcs: &Sources) -> R<String> {
         None => return fail(EP, "endpoint_request", "the function to exist"),
     };
     let (ep_params, stmts) = endpoint(epf, lib)?;
+    // every inherent `fn prepare_request`, wherever it lives (Props/GenRequest.lean pins owners and files)
     let mut preps = Vec::new();
-    for file in FILES {
-        let f = srcs.get(file)?;
+    for (file, f) in &srcs.files {
         for (owner, func) in inherent_fns(f, "prepare_request") {
             preps.push(prepare(file, &owner, func, &ep_params)?);
-        }
-    }
-    // any other prepare_request elsewhere would be outside the model
-    for (name, f) in &srcs.files {
-        if !FILES.contains(&name.as_str()) && !inherent_fns(f, "prepare_request").is_empty() {
-            return fail(name, "prepare_request", format!("`prepare_request` only in {}", FILES.join(", ")));
         }
     }
     preps.sort_by(|a, b| a.owner.cmp(&b.owner));
